@@ -19,7 +19,7 @@ isolation   for a fresh pair (dt, c = dt.copy()), for S in {dt, c}, for every Da
             V.valid + V.bad (wire form) are unchanged.
 compatible  all ordered pairs (A, B) of the pair catalogue (quick: all leaves + nestedness-probing leaves, arrays /
             tuples / structs over reduced member sets, a few depth-3 types; thorough: additionally every catalogue type
-            of depth <= 2):
+            to depth 3):
             soundness     if A.compatible(B) returns, every valid value of A must pass B.validate.  Valid values of A =
                           results of A.validate for the value catalogue of A (c02.values: limits, all grid points, ...)
                           and for the valid + bad/boundary catalogues of *both* A and B that A.validate accepts - every
@@ -61,11 +61,6 @@ build = H.build
 
 # ---------------------------------------------------------------------------------------------
 # helpers
-
-def bad_errors():
-    from frappy.errors import RangeError, WrongTypeError
-    return (RangeError, WrongTypeError)
-
 
 def outcome(fn, *args):
     """('ok', result) | ('refused', exception class name)"""
@@ -267,7 +262,7 @@ def equivalence(part, spec, mode, only_case=None, builder=None, name=None):
                             break
                     return hit
                 sub = localise_spec(spec, fails) if builder is None else spec
-                part.violation(f'C03:{mode}:{sub[0]}:{entry}:{res[0]}:{res[1]}',
+                part.violation(f'C03:{mode}:{sub[0]}:{res[0]}:{res[1]}',
                                {'check': mode, 'spec': T.tojson(spec), 'special': name, 'entry': entry, 'x': V.enc(x)},
                                f'{tname} vs its {mode} ({T.sstr(sub)} is the innermost part behaving differently), '
                                f'{entry} probe {x!r}: {res[2]}')
@@ -315,8 +310,17 @@ def reachable(root):
 
 
 def shared_objects(a, b):
+    """[(path in a, path in b, object)] of recorded objects reachable from both"""
     ra, rb = reachable(a), reachable(b)
-    return [(ra[i][0], rb[i][0], type(ra[i][1]).__name__) for i in ra if i in rb]
+    prio = {'DataType': 0, 'Enum': 1}
+    return sorted(((ra[i][0], rb[i][0], ra[i][1]) for i in ra if i in rb),
+                  key=lambda t: (prio.get(objclass(t[2]), 2), len(t[0]), t[0], t[1]))
+
+
+def objclass(obj):
+    from frappy.datatypes import DataType
+    from frappy.lib.enum import Enum, EnumMember
+    return 'DataType' if isinstance(obj, DataType) else 'Enum' if isinstance(obj, (Enum, EnumMember)) else type(obj).__name__
 
 
 def check_shared(part, spec, builder=None, name=None):
@@ -325,21 +329,20 @@ def check_shared(part, spec, builder=None, name=None):
     c = dt.copy()
     part.evaluations += 1
     part.traces += 1
-    ra = reachable(dt)
-    part.extra['objects_walked'] += len(ra)
+    part.transitions += 1
+    part.extra['objects_walked'] += len(reachable(dt))
     shared = shared_objects(dt, c)
     part.outcomes[f'copy:identity:{"disjoint" if not shared else "shared"}'] += 1
-    if c is dt:
-        shared = [('dt', 'dt', type(dt).__name__)]
     if shared:
         def fails(sub):
             d = build(sub)
             return bool(shared_objects(d, d.copy()))
-        sub = localise_spec(spec, fails) if builder is None else spec
-        part.violation(f'C03:copy:{sub[0]}:shares-object:{shared[0][2]}',
+        kind = localise_spec(spec, fails)[0] if builder is None else type(dt).__name__
+        pa, pb, obj = shared[0]
+        part.violation(f'C03:copy:{kind}:shares-object:{objclass(obj)}',
                        {'check': 'copy-shared', 'spec': T.tojson(spec), 'special': name},
-                       f'{tname}: original and copy both reach the same {shared[0][2]} object: original {shared[0][0]}, '
-                       f'copy {shared[0][1]} ({len(shared)} shared objects)')
+                       f'{tname}: original and copy both reach the same {type(obj).__name__} object: original {pa}, '
+                       f'copy {pb} ({len(shared)} shared objects)')
 
 
 # ---------------------------------------------------------------------------------------------
@@ -453,11 +456,21 @@ def isolation(part, spec, only_case=None, builder=None, name=None):
             if after_other != base[other]:
                 diffs = [i for i, (a, b) in enumerate(zip(after_other, base[other])) if a != b]
                 what = 'datainfo' if 0 in diffs else 'repr' if 1 in diffs else 'behaviour'
-                kind = spec_at(spec, path)[0] if builder is None else type(target).__name__
-                part.violation(f'C03:copy:{kind}:{opname}:on-{side}-changes-{other}:{what}',
+                # culprit: the container whose copy() handed out the very same member object (else the mutated node itself)
+                no, nc = dict(nodes(dt)), dict(nodes(c))
+                culprit = path
+                steps = [s_ for s_ in path.split('/') if s_]
+                for i in range(1, len(steps) + 1):
+                    pre = '/' + '/'.join(steps[:i])
+                    if no.get(pre) is nc.get(pre):
+                        culprit = '/' + '/'.join(steps[:i - 1]) if i > 1 else ''
+                        break
+                kind = spec_at(spec, culprit)[0] if builder is None else type(no[culprit]).__name__
+                part.violation(f'C03:copy:{kind}:mutation-of-one-side-changes-the-other:{what}',
                                {'check': 'isolation', 'spec': T.tojson(spec), 'special': name, 'side': side, 'path': path,
                                 'op': opname},
-                               f'{tname}: {opname} on node {path or "/"} of the {side} changed the {other}: '
+                               f'{tname}: {opname} on node {path or "/"} of the {side} changed the {other} '
+                               f'(copy() of the {kind} at {culprit or "/"} is not independent): '
                                f'before {[base[other][i] for i in diffs[:2]]!r}, after {[after_other[i] for i in diffs[:2]]!r}')
     if only_case is None:
         part.sample({'check': 'isolation', 'type': tname, 'mutations': len(plan) * 2})
@@ -518,7 +531,7 @@ def pair_types(tier):
     for c in inner:
         res += [('array', c, 0, 2), ('array', c, 1, 1), ('tuple', (i09, c)), ('struct', (('a', c), ('b', i09)), ('b',))]
     if tier == 'thorough':
-        res += T.all_types('thorough', 2) + H.ext_types()
+        res += T.all_types('thorough', 3) + H.ext_types()
     seen, out = set(), []
     for t in res:
         if t not in seen:
@@ -761,7 +774,7 @@ def run(ctx):
         ctx.pmap(shard_isolation, shards, name='isolation')
     ptypes = pair_types(ctx.tier)
     if not only or 'compatible' in only:
-        m = 96
+        m = min(len(ptypes), 1024)     # one first-type per shard: the cost per first type varies widely
         ctx.pmap(shard_compat, [(ctx.tier, list(range(i, len(ptypes), m))) for i in range(m) if i < len(ptypes)],
                  name='compatible')
     ctx.rule = ('enumeration. rebuild / copy: every catalogue type (all leaf kinds with boundary limits, containers to depth 3, 12 '
